@@ -117,6 +117,13 @@ def run(tier):
     for what, cfg, extra in footprint_peers():
         scs.append({'argv': ['-n'] + extra + [HOST], 'servers': {(HOST, 22): cfg}})
         meta.append(('footprint/' + what, cfg, False))
+    # a target named by a host name that resolves to several addresses of the same server: one address is dialled per connection
+    import socket as _socket
+    for name, cfg in c09.archetypes().items():
+        for addrs in ([(_socket.AF_INET, '10.0.0.1'), (_socket.AF_INET, '10.0.0.2')],
+                      [(_socket.AF_INET6, '2001:db8::1'), (_socket.AF_INET, '10.0.0.1'), (_socket.AF_INET, '10.0.0.2')]):
+            scs.append({'argv': ['-n', 'multihomed.example'], 'servers': {(ip, 22): cfg for _, ip in addrs}, 'resolver': {'multihomed.example': addrs}})
+            meta.append(('footprint/multi-homed x%d/%s' % (len(addrs), name), cfg, False))
     roles = {}
     # the fault family of C09, with the rate check on (quick: a sample)
     fsc, fmeta, _ = c09.build('quick', rnd)
